@@ -308,7 +308,7 @@ type Opts struct {
 
 func DefaultOpts() Opts { return Opts{TypeDepth: 3, MaxLongString: 262144, AllWriteTypes: true} }
 
-func always(primitive.ProtocolVersion) bool { return true }
+func always(primitive.ProtocolVersion) bool   { return true }
 func v4plus(v primitive.ProtocolVersion) bool { return AtLeast(v, 4) }
 
 func simpleError(name string, mk func(string) message.Message) Kind {
